@@ -744,8 +744,35 @@ fn search_c08(r: &mut Rng, iters: usize) -> bool {
     }
     true
 }
+
+const MULTI: [&str; 6] = ["CONFLICTS", "DEPENDS", "DESCRIPTION", "PROVIDES", "REQUIRES", "SUPERSEDES"];
+/// C07: run a call script on a fresh Summary - `a<i>.<mode>` sets entry i of `e` through the API (mode = one of the equivalent call
+/// sequences of api_apply), `x<k>` pushes one more value to multi-line variable k, `p` prints and compares with the canonical text
+/// of the values set so far.  Returns the first disagreeing print: (token index, expected, actual).
+fn summary_script(e: &[(String, Vec<String>)], script: &str) -> Option<(usize, String, String)> {
+    let mut api = Summary::new();
+    let mut cur: BTreeMap<usize, (String, Vec<String>)> = BTreeMap::new();
+    let pos = |n: &str| SUM_VARS.iter().position(|(k, _)| *k == n).unwrap();
+    for (ti, tok) in script.split(' ').enumerate() {
+        if tok == "p" {
+            let want = summary_render(&cur.values().cloned().collect::<Vec<_>>());
+            let got = format!("{}", api);
+            if got != want { return Some((ti, want, got)); }
+        } else if let Some(rest) = tok.strip_prefix('a') {
+            let (i, m) = rest.split_once('.').unwrap();
+            let (i, m): (usize, u8) = (i.parse().unwrap(), m.parse().unwrap());
+            more::api_apply(&mut api, &e[i].0, &e[i].1, m);
+            cur.insert(pos(&e[i].0), e[i].clone());
+        } else if let Some(k) = tok.strip_prefix('x') {
+            let name = MULTI[k.parse::<usize>().unwrap() % 6];
+            more::api_push(&mut api, name, "extra value");
+            cur.entry(pos(name)).or_insert((name.to_string(), vec![])).1.push("extra value".to_string());
+        }
+    }
+    None
+}
 fn search_c07(r: &mut Rng, iters: usize) -> bool {
-    for _ in 0..iters {
+    for it in 0..iters {
         // canonical text -> parse -> print reproduces it; print -> parse gives the same values
         let t = gen_entry_text(r, 0);
         let Ok(s) = Summary::from_str(&t) else { witness("summary_parse", &[("text", t)], "Ok", "Err"); return false };
@@ -763,6 +790,17 @@ fn search_c07(r: &mut Rng, iters: usize) -> bool {
             let printed = format!("{}", api);
             if printed != t {
                 witness("summary_api_print", &[("text", t.clone())], &t, &printed);
+                return false;
+            }
+            // observers between mutators: the printed form after every prefix of the call history (a cached or otherwise
+            // stale rendering shows only when printing is interleaved with the setters / pushers).  Own random stream.
+            let mut r2 = Rng::new(0xC07_0000 + it as u64);
+            let mut script = String::new();
+            for &i in &order { script.push_str(&format!("a{}.{} ", i, r2.below(12))); if r2.below(2) == 0 { script.push_str("p "); } }
+            script.push_str(&format!("x{} p x{} p", r2.below(6), r2.below(6)));
+            if let Some((at, want, got)) = summary_script(&e, &script) {
+                let upto: Vec<&str> = script.split(' ').take(at + 1).collect();
+                witness("summary_api_steps", &[("text", t.clone()), ("script", upto.join(" "))], &want, &got);
                 return false;
             }
         }
@@ -784,7 +822,10 @@ fn search_c07(r: &mut Rng, iters: usize) -> bool {
 }
 fn stream_run(chunks: &[&[u8]]) -> Result<String, String> {
     let mut st = SummaryStream::new();
-    for c in chunks {
+    for (k, c) in chunks.iter().enumerate() {
+        // observers between the writes (every other chunk): reading or printing the collection must not disturb later writes, and
+        // a rendering computed early must not be what is printed at the end
+        if k % 2 == 1 { let _ = st.entries().len(); let _ = format!("{}", st); }
         match st.write(c) {
             Ok(n) if n == c.len() => {}
             Ok(n) => return Err(format!("short write {} of {}", n, c.len())),
@@ -897,6 +938,8 @@ fn gen_canonical(r: &mut Rng) -> DInfo {
         let mut sums = vec![];
         for a in DIGESTS { if r.below(2) == 0 { sums.push((a.to_string(), format!("{:x}", r.next()))); } }
         if sums.is_empty() { sums.push(("SHA1".to_string(), "ab".to_string())); }
+        // checksum lines keep the order they were written in, whatever that order is (derived from the name: no extra random draw)
+        match name.iter().map(|&b| b as usize).sum::<usize>() % 4 { 1 => sums.reverse(), 2 => sums.rotate_left(1), 3 if sums.len() > 2 => sums.swap(0, 2), _ => {} }
         let e = DEntry { name, size: if patch { None } else { Some([0u64, 1, 77, u64::MAX][r.below(4)]) }, sums, patch };
         if patch { d.patch.push(e) } else { d.dist.push(e) }
     }
@@ -921,6 +964,8 @@ fn search_c10(r: &mut Rng, iters: usize) -> bool {
             // the entry's kind is decided by its file NAME; the path it was read from (a directory, another spelling) is irrelevant
             let fp = match r.below(3) { 0 => p.clone(), 1 => PathBuf::from("/usr/pkgsrc/distfiles"), _ => PathBuf::from("work/.extract/") };
             api.insert(Entry::new(&p, &fp, sums, e.size));
+            // observers between the inserts: writing or listing the half-assembled value must not influence what is written at the end
+            if e.name.len() % 2 == 1 { let _ = api.as_bytes(); let _ = api.distfiles().len() + api.patchfiles().len(); let _ = api.get_distfile(&p).is_some(); }
         }
         let written = api.as_bytes();
         let re = real_dinfo(&Distinfo::from_bytes(&written));
@@ -1131,6 +1176,11 @@ fn run_witness(args: &[String]) -> i32 {
                 Err(_) => "oracle-parse-error".into(),
             }
         }
+        "summary_api_steps" => match summary_parse(&g("text")) {
+            // replay: the script up to the failing print; the answer is what that print shows
+            Ok(e) => { let sc = g("script"); match summary_script(&e, &sc) { Some((_, _, got)) => got, None => expected.clone() } }
+            Err(_) => "oracle-parse-error".into(),
+        },
         "summary_roundtrip" | "summary_print" => match Summary::from_str(&g("text")) { Ok(s) => format!("{}", s), Err(_) => "parse-error".into() },
         "stream_chunks" | "stream_print" => {
             let bytes = unhexb(&g("hexstream"));
